@@ -14,7 +14,7 @@ from ..program import AnalysisError, FunctionInfo, fn_nodes, norm
 from ..callgraph import CallSite
 from ..cfg import cfg_of
 from ..terms import Terms, show, match, alts, C, K, L
-from .common import JWS_PRODUCE, const_value, entries, impls, is_const, scope_of, sites_calling
+from .common import find_local, resolve_all, JWS_PRODUCE, const_value, entries, impls, is_const, scope_of, sites_calling
 from .c05 import _resolve_local
 from .c06 import _key_producers
 
@@ -256,22 +256,24 @@ def r03_4(ctx) -> None:
     P = eng.prog
     dc = P.func("rfc7515.compact:detach_compact_content")
     vp = dc.pos_params[0]
-    sp = [d for d in eng.flow._defs(dc).get("parts", []) if d[0] == "assign"]
-    ok = len(sp) == 1 and norm(sp[0][1]) == f"{vp}.split('.')"
+    pv = find_local(eng, dc, lambda t_: t_ == f"{vp}.split('.')")
+    sp = [d for d in eng.flow._defs(dc).get(pv, []) if d[0] == "assign"]
+    ok = len(sp) == 1
     stores = [n for n in fn_nodes(dc) if isinstance(n, ast.Assign) and isinstance(n.targets[0], ast.Subscript)]
-    ok = ok and len(stores) == 1 and norm(stores[0].targets[0]) == "parts[1]" and const_value(stores[0].value) == ""
+    ok = ok and len(stores) == 1 and norm(stores[0].targets[0]) == f"{pv}[1]" and const_value(stores[0].value) == ""
     rets = [norm(n.value) for n in fn_nodes(dc) if isinstance(n, ast.Return)]
-    ok = ok and rets == ["'.'.join(parts)"]
+    ok = ok and rets == [f"'.'.join({pv})"]
     ctx.check(ok, "R03.4", dc, dc.node, dc.short, "detach_compact_content does not replace exactly the payload segment (index 1) and re-join with '.'", "parts[1] = ''; '.'.join(parts)",
               construct="compact detach")
     dj = P.func("rfc7515.json:detach_json_content")
     vp = dj.pos_params[0]
-    cp = [d for d in eng.flow._defs(dj).get("rv", []) if d[0] == "assign"]
-    okj = len(cp) == 1 and norm(cp[0][1]) == f"copy.deepcopy({vp})"
+    rvv = find_local(eng, dj, lambda t_: t_ == f"copy.deepcopy({vp})")
+    cp = [d for d in eng.flow._defs(dj).get(rvv, []) if d[0] == "assign"]
+    okj = len(cp) == 1
     dels = [n for n in fn_nodes(dj) if isinstance(n, ast.Delete)]
-    okj = okj and len(dels) == 1 and norm(dels[0].targets[0]) == "rv['payload']"
+    okj = okj and len(dels) == 1 and norm(dels[0].targets[0]) == f"{rvv}['payload']"
     muts = [n for n in fn_nodes(dj) if isinstance(n, ast.Assign) and isinstance(n.targets[0], ast.Subscript)]
-    okj = okj and not muts and [norm(n.value) for n in fn_nodes(dj) if isinstance(n, ast.Return)] == ["rv"]
+    okj = okj and not muts and [norm(n.value) for n in fn_nodes(dj) if isinstance(n, ast.Return)] == [rvv]
     ctx.check(okj, "R03.4", dj, dj.node, dj.short, "detach_json_content does not delete only 'payload' from a deep copy", "rv = deepcopy(value); del rv['payload']", construct="JSON detach")
 
 
